@@ -94,6 +94,12 @@ def linear(ck, sh, mm):
                     eq_term(a[i], b[i]) for a, b in zip(o['singles'], o['alone']) for i in range(n)])))
                 g.append(('currents do not depend on the order in which sources are registered', z3.And(*[
                     eq_term(o['I0'][i], o['Irev'][i]) for i in range(n)])))
+            # total input power used to normalise every field table: sum of Re(V I*)/2, scales with |a|^2 (hence the dBi
+            # pattern does not change with a complex factor: C10 shows it depends on currents and power only through I I*/P)
+            tot = 0.0
+            for j, (z, p, cur, v, idx) in enumerate(o['data']):
+                Ik, Vj = SC.lift(o['I0'][idx]), SC.lift(o['V'][j])
+                tot = tot + (Vj.re * Ik.re + Vj.im * Ik.im) * 0.5
             for j, (z, p, cur, v, idx) in enumerate(o['data']):
                 Ik = o['I0'][idx]
                 g.append(('source %d: reported current is the feed-pulse current' % j, eq_term(cur, Ik)))
@@ -132,6 +138,12 @@ def linear(ck, sh, mm):
                 mr, _ = _real_solve(mm, gname, c['f'], Zc, V[::-1], list(pulses)[::-1])
                 if not np.allclose(mr.current, m0.current, rtol=tol, atol=tol * scale):
                     bad = 'currents depend on the order of source registration: %r vs %r' % (m0.current, mr.current)
+            if bad is None:
+                ptot = sum(0.5 * (V[j] * np.conj(m0.current[pulses[j]])).real for j in range(k))
+                if not close(m0.power, ptot, 1e-9, 1e-12 * abs(ptot)):
+                    bad = 'total input power %r is not the sum of Re(V I*)/2 = %r (this power normalises the dBi and V/m tables)' % (m0.power, ptot)
+                elif not close(ma.power, abs(a) ** 2 * m0.power, max(tol, 1e-9), 1e-12 * abs(ptot)):
+                    bad = 'total input power does not scale with |a|^2: %r vs %r' % (ma.power, abs(a) ** 2 * m0.power)
             for j, s in enumerate(s0):
                 if bad:
                     break
@@ -222,6 +234,51 @@ def reuse(ck, sh, mm):
         ck.bounds.setdefault('cases', []).append('%s: one object solved three times (sources replaced, source added), arbitrary Z' % gname)
 
 
+def total_power(ck, sh, mm):
+    """compute() leaves in Mininec.power -- the number every dBi / V/m / near-field table is normalised with -- the sum of
+    Re(V I*)/2 over the sources, for ALL complex voltages and whatever currents solve the system (the solve is replaced
+    by unknown currents constrained by Z I = rhs, so the identity is decided for every current vector)."""
+    from symx import npf
+    M = sh.mininec
+    cases = [('G8', 3, (2, 0)), ('G2', 4, (1, 3))] if ck.tier == 'quick' else [('G8', 3, (2, 0)), ('G2', 4, (1, 3)), ('G9', 6, (0, 3, 5)), ('G1', 3, (1,))]
+    for gname, n, pulses in cases:
+        def fn(gname=gname, n=n, pulses=pulses):
+            f = pos('f', 0.1, 1000)
+            V = [SC.var('V%d' % i) for i in range(len(pulses))]
+            Z = _sym_matrix(n)
+            old = npf.state.solve_mode
+            npf.state.solve_mode = 'unknowns'
+            try:
+                with symx.object_arrays():
+                    m, srcs = _solve(M, gname, f, Z, V, pulses)
+            finally:
+                npf.state.solve_mode = old
+            return dict(inputs=dict(f=f, V=V, Z=list(Z.reshape(-1))), power=m.power, I=[m.current[p] for p in pulses], V=V)
+
+        def goals(o):
+            tot = 0.0
+            for Ik, Vj in zip(o['I'], o['V']):
+                Ik, Vj = SC.lift(Ik), SC.lift(Vj)
+                tot = tot + (Vj.re * Ik.re + Vj.im * Ik.im) * 0.5
+            return [('Mininec.power = sum of Re(V I*)/2 over the sources', eq_term(o['power'], tot))]
+
+        def replay(c, gn, out, gname=gname, n=n, pulses=pulses):
+            Zc = np.array(c['Z'], dtype=complex).reshape(n, n)
+            if abs(np.linalg.det(Zc)) < 1e-12:
+                Zc = Zc + np.eye(n) * (1 + 1j)
+            V = [complex(v) for v in c['V']]
+            if all(abs(v.imag) < 1e-12 for v in V):
+                V = [v * (0.6 + 0.8j) for v in V] if any(V) else [0.6 + 0.8j] * len(V)
+            m, srcs = _real_solve(mm, gname, c['f'], Zc, V, pulses)
+            ptot = sum(0.5 * (V[j] * np.conj(m.current[pulses[j]])).real for j in range(len(pulses)))
+            if close(m.power, ptot, 1e-9, 1e-12 * abs(ptot)):
+                return None
+            return ('C07:total-power:%s' % gname, '%s, sources %r on pulses %s: Mininec.power = %r, sum of Re(V I*)/2 = %r (this power normalises '
+                    'the dBi, V/m and near-field tables, so the pattern would change with a common complex factor)' % (gname, V, [p + 1 for p in pulses], m.power, ptot),
+                    dict(kind='total-power', geometry=gname))
+        prove_paths(ck, 'total-power-%s' % gname, fn, goals, replay)
+
+
 def source_data(ck, sh, mm):
     """V/I and Re(V I*)/2 for an ARBITRARY current vector (the solve is not involved)."""
     M = sh.mininec
@@ -302,6 +359,7 @@ def main(args):
     with symx.shadow.trace_functions(sh):
         linear(ck, sh, mm)
         reuse(ck, sh, mm)
+        total_power(ck, sh, mm)
         source_data(ck, sh, mm)
     ck.functions = sh.entered
     ck.assumptions += [
